@@ -501,12 +501,11 @@ func fieldOf2(lit *ir.Term, name string) *ir.Term {
 	if lit == nil || lit.Op != "lit" {
 		return nil
 	}
-	for _, kv := range lit.Args {
-		if kv.Aux == name {
-			return kv.Args[0]
-		}
+	v := ir.FieldOf(lit, name)
+	if v != nil && v.Op == "const" && strings.HasPrefix(v.Aux, "zero:.") {
+		return nil
 	}
-	return nil
+	return v
 }
 
 func dropWhileRules(c *core.Ctx, pkg string) {
